@@ -45,7 +45,7 @@ checks["C12"] = (MC,
     "original layout for both targets; a second harness inserts 1..2 symbolic bytes over {blank, tab} at every gap of the "
     "hand-written seeds (the lexer runs on the symbolic bytes); rejected programs are seeds too (acceptance must not change)",
     "trusted: host-side token splitter that defines token-preserving re-layouts; differences are re-confirmed on the "
-    "native build; outside: layouts not in the menus, windows wider than 2 (quick) / 3 (thorough) gaps",
+    "native build; outside: layouts not in the menus, windows wider than 2 gaps (quick: 70 sampled gaps of the short test programs, thorough: 600 of all)",
     "SSA execution of lexer+parser+both back-ends on re-laid-out sources (explicit nondeterministic layout choice), byte equality of outputs")
 checks["C13"] = (MC,
     "bounded symbolic execution of Transpile for both targets: main file of n fully symbolic bytes (n<=2 quick, n<=3 "
@@ -58,7 +58,7 @@ checks["C13"] = (MC,
     "SSA symbolic execution with panic capture and budgets; z3 / byte-domain decision for branch feasibility")
 checks["C14"] = (MC,
     "bounded exploration in the SSA executor of call histories (1..2 quick, 1..3 thorough) on one transpiler object over 6 "
-    "programs (one uses every statement form of the language, one is another program's tree after an edit in place) x 2 targets, "
+    "programs (one uses every statement form of the language, one is another program's tree after an edit in place) x 2 targets (histories of three calls over three of the programs), "
     "3 directory spellings paired with 3 ways the process was started (argv[0], working directory) and every permutation of every map range; each call's text must equal, "
     "for all values of the symbolic integer literals, the text of the same call alone at the canonical location; plus "
     "native repetition/relocation/fresh-process runs under three environments (PATH, HOME, locale, time zone)",
